@@ -28,7 +28,9 @@ def repr_spec(draw, p, integral, index_kinds=ALL_INDEX_KINDS, column_kinds=D.COL
     return {"container": draw(st.sampled_from(containers)),
             # narrower integer types are used where every value fits (see `represent`)
             "dtype": draw(st.sampled_from(["int64", "float64", "int32", "int16", "float32"])) if integral else "float64",
-            "index": draw(D.index_spec(index_kinds)), "columns": draw(st.sampled_from(column_kinds))}
+            "index": draw(D.index_spec(index_kinds)), "columns": draw(st.sampled_from(column_kinds)),
+            # arrays in memory that cannot be written to (np.load(mmap_mode="r"), np.broadcast_to, setflags(write=False))
+            "read_only": draw(st.integers(0, 4)) == 0}
 
 
 def represent(X, r, offset=0):
@@ -44,6 +46,9 @@ def represent(X, r, offset=0):
     elif r["dtype"] == "float32" and np.array_equal(arr.astype(np.float32).astype(np.float64), arr):
         arr = arr.astype(np.float32)  # single precision, where it holds exactly the same numbers
     n, p = arr.shape
+    if r.get("read_only") and r["container"] in ("ndarray2d", "ndarray1d"):
+        arr = arr.copy()
+        arr.setflags(write=False)
     if r["container"] == "ndarray2d":
         return arr
     if r["container"] == "ndarray1d":
@@ -117,6 +122,10 @@ def cases(draw, tier, det):
             r = draw(repr_spec(p, integral, D.INDEX_KINDS + D.TZ_INDEX_KINDS, D.UNIQUE_COLUMN_KINDS))  # pandas alignment needs unique labels
             r["container"] = draw(st.sampled_from(["DataFrame"] + (["Series"] if p == 1 else [])))
             r2 = dict(r, dtype=draw(st.sampled_from(["float64", "int64"])) if integral else "float64")
+            if r["container"] == "Series" and draw(st.booleans()):
+                # the chunk is a Series under another name than the history (df["temp"], then pd.Series(values, index=times)):
+                # names of Series play no role
+                r2["columns"] = draw(st.sampled_from(D.UNIQUE_COLUMN_KINDS))
             if r["index"]["kind"] in ("datetime_D", "datetime_h", "datetime_B", "datetime_MS") and draw(st.integers(0, 1)) == 0:
                 # the same instants stored in another resolution than the history's (never the same non-default resolution on
                 # both sides: pandas 2.3.3 itself returns a wrong DatetimeIndex.union there, see DESIGN.md 5)
